@@ -31,7 +31,12 @@ func (m *Monitor) makeCorrupt(rng *rand.Rand, src, dst string, raw []byte) (out 
 		if ep.suite.Kind == "aead" {
 			limit = ep.aead.NonceSize() + ep.aead.Overhead()
 		}
-		return append([]byte(nil), raw[:rng.Intn(limit)]...), "short"
+		out := append([]byte(nil), raw[:rng.Intn(limit)]...)
+		if len(out) >= 6 && rng.Intn(2) == 0 {
+			// bytes 4..5 are where an (unverified) frame would carry the FEC type marker
+			out[4], out[5] = []byte{0xf1, 0xf2, 0xf3}[rng.Intn(3)], 0
+		}
+		return out, "short"
 	}
 	if ep.suite.Kind == "aead" {
 		out = append([]byte(nil), raw...)
@@ -160,6 +165,12 @@ func injectGarbage(w *World, sc Scenario, rng *rand.Rand, getSrv func() *kcp.UDP
 		case k == 5 && len(raw) >= 8:
 			data = raw
 			binary.LittleEndian.PutUint16(data[rng.Intn(len(data)-1):], []uint16{0, 1, 2, 0xf1, 0xf2, 0xf3, 0xffff, uint16(len(raw)), uint16(len(raw) + 1)}[rng.Intn(9)])
+		case k == 6 && len(raw) >= 8:
+			// keep the frame consistent but move the FEC sequence id far away (same position in the data/parity cycle
+			// for the common group sizes: the offset is a multiple of 2*3*5*13)
+			data = raw
+			seq := binary.LittleEndian.Uint32(data)
+			binary.LittleEndian.PutUint32(data, seq+uint32(390*(1+rng.Intn(5000000))))
 		default:
 			data = raw
 		}
